@@ -68,6 +68,12 @@ func instrList(list []ast.Stmt) []ast.Stmt {
 		}
 		if relevant(s) {
 			out = append(out, yieldStmt(s), s)
+			if _, isGo := s.(*ast.GoStmt); isGo && i+1 < len(list) {
+				// also right after a go statement: the new goroutine may run before its creator goes on
+				if _, ret := list[i+1].(*ast.ReturnStmt); !ret && !relevant(list[i+1]) {
+					out = append(out, yieldStmt(list[i+1]))
+				}
+			}
 			if isUnlock(s) && i+1 < len(list) {
 				// also right after an unlock: the window between releasing a lock and whatever comes next
 				if _, ret := list[i+1].(*ast.ReturnStmt); !ret && !relevant(list[i+1]) {
